@@ -21,6 +21,9 @@ Oracle (from the property statement):
                 clones) changes the snapshot of the other side; checked after
                 every step of mutation histories.
 
+  scopes        a clone made while pg.as_sealed / pg.allow_writable_accessors
+                (or notify_on_change / track_origin) scopes are active obeys
+                the same oracle once the scope is left;
   refusal       a deep clone may refuse (raise) only where Python's own
                 copy.deepcopy refuses a non-symbolic leaf of the value with
                 the same exception class; it must then leave the original
@@ -70,7 +73,7 @@ FRAGMENTS = [
            "class A(pg.Object): allow_symbolic_assignment = True\n"),
     ('N(', "@pg.members([('x', T.Any(default=None))])\n"
            "class N(pg.Object): allow_symbolic_mutation = False\n"),
-    ('TY(', "@pg.members([('n', T.Int()), ('d', T.Dict([('p', T.Int(default=0)), ('q', T.List(T.Int(), default=[]))])), ('z', T.Any(default=None))])\n"
+    ('TY', "@pg.members([('n', T.Int()), ('d', T.Dict([('p', T.Int(default=0)), ('q', T.List(T.Int(), default=[]))])), ('z', T.Any(default=None))])\n"
             "class TY(pg.Object): pass\n"),
     ('fn(', "@pg.functor([('a', T.Any()), ('b', T.Any(default=1))])\n"
             "def fn(a, b): return a\n"),
@@ -574,8 +577,17 @@ def drv_clone_fidelity(tier, seed):
       'C07', 'clone fidelity, sharing, purity and alias coincidence',
       scope=f'{len(subs)} subjects (Dict/List x 8 flag combinations x typed/untyped, children with '
             'differing flags, typed/partial/sealed Objects, Ref, non-symbolic mutable leaves, '
-            'nested nodes, Functor, DNA, hyper values) x clone(deep=False/True) and '
-            f'{len(ALIASES)} aliases (+ .copy()); every node pair compared')
+            'nested nodes, Functor, DNA, hyper values, stand-alone / nested / subclassed Ref, Ref '
+            'targets also held in leaves, classes sealed by default (Object, Functor, hyper, DNA) '
+            'as built and unsealed afterwards, symbolized classes, DNASpec, DNAGenerator, Diff, '
+            'symbolic nodes inside leaves, leaves Python cannot deep-copy: lock, generator, object '
+            'owning a lock, __deepcopy__ raising 6 exception classes) x clone(deep=False/True) and '
+            f'{len(ALIASES)} aliases (+ .copy()) incl. deep copies through a memo that already holds '
+            f'copies of the Ref targets; clones made inside {len(SCOPES)} scoped overrides '
+            '(as_sealed, allow_writable_accessors, notify_on_change, track_origin; quick: one of '
+            '4 clone expressions per subject/scope); every node x {seal, accessor-writable} flipped '
+            'after construction then cloned (quick: 10 nodes nearest the root, one of 4 clone '
+            'expressions per flip); every node pair compared')
   for subject_index, (label, src) in enumerate(subs):
     base_fail = {}
     base_raised = set()
@@ -883,8 +895,10 @@ def drv_clone_independence(tier, seed):
   rec = Recorder(
       'C07', 'no mutation of one side is observable through the other',
       scope=f'{len(subs)} subjects x {len(methods)} clone methods x both directions x every '
-            'single mutation (content writes at every node, seal / accessor flips, writes '
-            'inside mutable leaves for deep clones)'
+            'single mutation (content writes at every node, seal / accessor flips incl. seal flips '
+            'of Ref nodes, attaching a parentless value to a new Dict / List, writes inside mutable '
+            'leaves -- plain containers, object attributes, symbolic nodes held by a leaf -- for '
+            'deep clones)'
             + ('; quick: every 2nd mutation (offset = seed)' if quick else '')
             + f'; plus {nrand} seeded histories of 2..5 mutations alternating sides per subject/method')
   r = rng(seed, 'c07-indep')
